@@ -259,3 +259,79 @@ def repo_syn(rel):
     if not p:
         return None
     return json.load(open(p))
+
+
+# ------------------------------------------------------------------------------------ compile witnesses
+STUB = '''
+    #[derive(Debug, Clone, PartialEq, Eq, Default)]
+    pub struct {name}(pub Vec<u8>);
+    impl pdl_runtime::Packet for {name} {{
+        fn decode(buf: &[u8]) -> Result<(Self, &[u8]), pdl_runtime::DecodeError> {{
+            if buf.is_empty() {{ return Err(pdl_runtime::DecodeError::TrailingBytesError); }}
+            Ok(({name}(buf[..1].to_vec()), &buf[1..]))
+        }}
+        fn encode(&self, buf: &mut impl bytes::BufMut) -> Result<(), pdl_runtime::EncodeError> {{
+            buf.put_slice(&self.0);
+            Ok(())
+        }}
+        fn encoded_len(&self) -> usize {{ self.0.len() }}
+    }}
+'''
+
+
+def stage_harness(tier, seed=0):
+    """Type-check all emitted Rust against pdl-runtime/bytes under #![forbid(unsafe_code)]
+    (stable toolchain, deny-by-default lints on). Per-module error attribution."""
+    g = Gen(tier, seed)
+
+    def build(d):
+        src = os.path.join(d, "src")
+        os.makedirs(src)
+        lock = os.path.join(REPO, "Cargo.lock")
+        shutil.copy(lock, os.path.join(d, "Cargo.lock"))
+        with open(os.path.join(d, "Cargo.toml"), "w") as f:
+            f.write('[package]\nname = "pdlharness"\nversion = "0.0.0"\nedition = "2021"\n\n[workspace]\n\n'
+                    '[dependencies]\npdl-runtime = { path = "%s/pdl-runtime" }\nbytes = "1"\n' % REPO)
+        mods = []
+        names = [nm for nm in g.names() if g.ok(nm, "rust")]
+        for nm in names:
+            stubs = ""
+            try:
+                model = g.model(nm)
+                for dd in model.decls:
+                    if getattr(dd, "kind", "") == "custom" and dd.width is None:
+                        stubs += STUB.format(name=dd.name)
+            except Exception:
+                pass
+            mods.append("pub mod %s {\n%s\n    include!(%s);\n}\n" % (nm, stubs, json.dumps(g.path(nm, "rs"))))
+        with open(os.path.join(src, "lib.rs"), "w") as f:
+            f.write("#![forbid(unsafe_code)]\n#![allow(warnings)]\n#![allow(non_camel_case_types, non_snake_case)]\n" + "\n".join(mods))
+        tdir = os.path.join(core.CACHE, "target-harness")
+        p = sh(["cargo", "check", "--offline", "--message-format=json", "--quiet"], cwd=d,
+               env={"CARGO_TARGET_DIR": tdir}, check=False, timeout=3600)
+        errors = []
+        for line in p.stdout.splitlines():
+            try:
+                m = json.loads(line)
+            except Exception:
+                continue
+            if m.get("reason") != "compiler-message":
+                continue
+            msg = m["message"]
+            if msg.get("level") != "error":
+                continue
+            spans = msg.get("spans") or []
+            fname = None
+            lineno = 0
+            for sp in spans:
+                if sp.get("is_primary"):
+                    fname = sp["file_name"]
+                    lineno = sp["line_start"]
+                    # errors inside include!d files are reported with the included file name
+            code = (msg.get("code") or {}).get("code")
+            errors.append({"file": fname, "line": lineno, "code": code, "message": msg.get("message", "")[:300]})
+        with open(os.path.join(d, "result.json"), "w") as f:
+            json.dump({"modules": names, "errors": errors, "rc": p.returncode, "stderr": p.stderr[-2000:]}, f)
+
+    d = run_stage(f"harness-{tier}-{seed}", build)
+    return json.load(open(os.path.join(d, "result.json")))
